@@ -48,10 +48,6 @@ inline size_t blkCost(Adapter& A, const Blk& b) {
   return A.cost(r);
 }
 
-inline const char* bucket(uint64_t v) {
-  return v == 0 ? "0" : v < 10 ? "1+" : v < 100 ? "10+" : v < 1000 ? "100+" : "1000+";
-}
-
 // ------------------------------------------------------------------ serial
 inline CaseResult runSerial(Harness& H, long k, Rng& rng, Adapter& A) {
   CaseCtx c(H, A.comp);
